@@ -1142,6 +1142,48 @@ func JoinVsPublishBody(kind string, n int) func(x *vrt.Exec) {
 	}
 }
 
+// UDPUnavailableBody: the server cannot open the UDP socket a unicast-UDP or multicast player
+// needs. The player is refused, or accepted and then disconnected; nothing is left behind and
+// the stream and its other players are not disturbed.
+func UDPUnavailableBody(kind string) func(x *vrt.Exec) {
+	return func(x *vrt.Exec) {
+		vrt.Quiet(true)
+		w := newWorld(x)
+		if w == nil {
+			return
+		}
+		w.apply("attach:tcp", false)
+		w.apply("pub", false)
+		p := w.players[kind]
+		p.attachUpTo(x, false)
+		vnet.FailNextListenUDP(1)
+		p.sendPlay()
+		vrt.WhenIdle()
+		vnet.FailNextListenUDP(0)
+		answer := codes(p.tcp.Drain())
+		kk := strings.TrimRight(kind, "12")
+		x.Observe("%s answer=%s closed=%v", kind, answer, p.serverClosed())
+		if answer == "200" && !p.serverClosed() {
+			x.Failf("release player-without-socket-left-connected "+kk, "the server could not open a UDP socket for the %s player, answered PLAY with 200 and left the player connected without any media path", kind)
+		}
+		if answer != "200" && p.serverClosed() {
+			x.Failf("release refused-player-disconnected "+kk, "PLAY was refused with %s and the connection was closed as well", answer)
+		}
+		w.apply("pub", false)
+		w.apply("pub", false)
+		p.attached, p.done = false, false
+		x.Observe("%s", strings.Join(w.checkReception(), " "))
+		if n := vnet.OpenUDP(); n != 0 {
+			x.Failf("release udp-socket-left-open udp-unavailable "+kk, "%d UDP sockets open", n)
+		}
+		w.pusher.Do("TEARDOWN", pushURL, nil, "")
+		vrt.WhenIdle()
+		w.closeAllClients()
+		w.checkCounters("release-at-end udp-unavailable "+kk, "publisher-teardown", "udp socket unavailable", 0, 0, 0)
+		stuck(x, "release-at-end udp-unavailable "+kk)
+	}
+}
+
 // FanoutScenarios are C01's.
 func FanoutScenarios(thorough bool) []runner.Scenario {
 	steps, e, sh, mcP, joinN := 6, 3, 8, 2, 3
@@ -1172,6 +1214,9 @@ func ReleaseScenarios(thorough bool) []runner.Scenario {
 	p := 2
 	if thorough {
 		p = 3
+	}
+	for _, k := range []string{"udp", "mc1"} {
+		out = append(out, runner.Scenario{Name: "udp-socket-unavailable-" + k, Body: UDPUnavailableBody(k), P: 0, Horizon: 400000, NoFine: true})
 	}
 	for _, k := range []string{"tcp", "udp", "mc1", "ws", "wsp", "hflv", "wflv"} {
 		out = append(out, runner.Scenario{Name: "attach-vs-publisher-disconnect-" + k, Body: AttachVsEndBody(k), P: p, Shards: sh, Horizon: 400000, NoFine: true})
